@@ -13,7 +13,7 @@ def _drained_after(tr, k):
     """PDUs retrieved after call at steps index k until the next call."""
     out = []
     j = k + 1
-    while j < len(tr.steps) and tr.steps[j].tag not in (0, 1, 8):
+    while j < len(tr.steps) and tr.steps[j].tag not in (0, 1, 3, 4, 8):
         if tr.steps[j].tag == 2 and tr.steps[j].ob["ret"] == 1:
             out.append(codec.dec_got(tr.steps[j].ob["extra"])[0])
         j += 1
@@ -24,7 +24,55 @@ def _strip(p):
     return {k: v for k, v in p.items() if k != "parse_ok"}
 
 
+def oracle_c04_sender_pdu_level(tr: Trace):
+    """The EOF positive-ACK procedure judged from the emitted PDUs and the clock alone (not from the handler's own timer and
+    counter fields): every EOF PDU - also the EOF (cancel) - gets a whole interval before it is re-sent or given up, and
+    with a silent receiver it is emitted exactly N times before the limit fault."""
+    if tr.kind != "source" or not tr.cfg["remotes"]:
+        return
+    by_id = {r["id"]: r for r in tr.cfg["remotes"]}
+    remote = tr.cfg["remotes"][0]
+    now = 0
+    cur = None          # [condition, time of the last emission, number of emissions, receiver silent since the first one]
+    for k, st in enumerate(tr.steps):
+        if st.tag == 5:
+            now += st.op[1]
+            continue
+        if st.tag == 8 and st.ob["ret"] == 1:
+            if st.op[1] in by_id:
+                remote = by_id[st.op[1]]
+            cur = None
+        if st.tag == 4 or (st.tag == 7):
+            cur = None
+        if st.tag == 0 and st.ob["exc"] == 0 and cur is not None:
+            cur[3] = False      # something arrived from the receiver: counts may restart, only the interval clause applies
+            if st.pdu["kind"] in (codec.K_ACK, codec.K_FIN):
+                cur = None
+        if st.tag in (0, 1, 3) and cur is not None and st.ob["exc"] == 0:
+            lim = [e for e in st.ob["events"] if e[0] in (11, 12, 14) and (e[3] == 1 or e[0] == 14)]
+            if lim and st.tag != 3:
+                if now - cur[1] < remote["ack_ms"]:
+                    raise Failure(f"C04 sender gave up its EOF (condition {cur[0]}) {now - cur[1]} ms after emitting it, the "
+                                  f"Positive ACK interval is {remote['ack_ms']} ms (op {st.i})")
+                if cur[3] and cur[2] != remote["ack_limit"]:
+                    raise Failure(f"C04 sender gave up its EOF (condition {cur[0]}) after {cur[2]} emission(s) to a silent "
+                                  f"receiver; the limit is {remote['ack_limit']} (op {st.i})")
+                cur = None
+        if st.tag == 2 and st.ob["ret"] == 1:
+            g = codec.dec_got(st.ob["extra"])[0]
+            if g["kind"] != codec.K_EOF or g["mode"] != 0:
+                continue
+            if cur is not None and cur[0] == g["cond"]:
+                if now - cur[1] < remote["ack_ms"]:
+                    raise Failure(f"C04 EOF (condition {g['cond']}) re-sent {now - cur[1]} ms after the previous emission, the "
+                                  f"Positive ACK interval is {remote['ack_ms']} ms (op {st.i})")
+                cur[1], cur[2] = now, cur[2] + 1
+            else:
+                cur = [g["cond"], now, 1, True]
+
+
 def oracle_c04(tr: Trace):
+    oracle_c04_sender_pdu_level(tr)
     remote = tr.cfg["remotes"][0] if tr.cfg["remotes"] else None
     if remote is None:
         return
@@ -455,8 +503,59 @@ class ReuseSilentCase(SilentCase):
 _base3_c04_cases = c04_cases
 
 
+class SenderCancelTimingCase:
+    """Acknowledged sender whose receiver never answers: the whole file and the EOF go out, [pre] whole ACK intervals and
+    a fraction [frac_ms] of the next one pass (polled every [poll] ms), the user cancels, and the sender is polled every
+    [poll] ms until it is idle: the EOF (cancel) exchange has its own fresh interval and its own fresh count."""
+
+    def __init__(self, cfg: Cfg, size, pre, frac_ms, poll=100, tag="c04t"):
+        self.cfg, self.size, self.pre, self.frac_ms, self.poll, self.tag = cfg, size, pre, frac_ms, poll, tag
+
+    def describe(self):
+        return {"sender_cancel_timing": True, "size": self.size, "expiries_before_cancel": self.pre, "cancel_at_ms": self.frac_ms,
+                "ack_ms": self.cfg.ack_ms, "ack_limit": self.cfg.ack_limit, "poll_ms": self.poll}
+
+    def run(self):
+        cfg = self.cfg
+        w = World(cfg, self.tag)
+        try:
+            start_transfer(w, bytes((5 * i + 1) % 256 for i in range(self.size)))
+            s = w.src
+
+            def call():
+                s.sm(None)
+                while s.get() is not None:
+                    pass
+            for _ in range(self.size // (cfg.max_seg or 4) + 6):
+                call()
+            waited = 0
+            while waited < self.pre * cfg.ack_ms + self.frac_ms and s.h.state.value == 1:
+                w.advance(self.poll)
+                waited += self.poll
+                call()
+            t = s.h.transaction_id
+            if t is not None and s.h.state.value == 1:
+                s.cancel(t.source_id.value, t.seq_num.value)
+                while s.get() is not None:
+                    pass
+            for _ in range((cfg.ack_limit + 2) * cfg.ack_ms // self.poll + 5):
+                if s.h.state.value == 0:
+                    break
+                w.advance(self.poll)
+                call()
+            self.sides = [("source", s.ops, s.obs)]
+            return self
+        finally:
+            w.close()
+
+
 def c04_cases(tier, rng):  # noqa: F811
     cases = _base3_c04_cases(tier, rng)
+    for N in (1, 2, 3):
+        for pre in range(0, N):
+            for frac in ((300, 700) if tier == "quick" else (100, 300, 500, 700, 900)):
+                cfg = Cfg(mode=0, max_seg=4, ack_ms=1000, nak_ms=1000, ack_limit=N, nak_limit=3, closure=rng.random() < 0.5)
+                cases.append(SenderCancelTimingCase(cfg, rng.choice([0, 5, 9]), pre, frac))
     combos = [(a, b, n1, n2, first) for a in (1000, 500, 2000) for b in (500, 1000, 3000) for n1 in (1, 2, 3) for n2 in (1, 2, 3)
               for first in ("completed", "silent") if a != b]
     if tier == "quick":
